@@ -578,7 +578,10 @@ class SecopClient(ProxyClient):
         self.disconnect_time = time.time()
         try:  # make sure txq does not block
             while not self.txq.empty():
-                self.txq.get(False)
+                entry = self.txq.get(False)
+                if entry:
+                    # release the caller: the request will not be transmitted any more
+                    entry[1].set()
         except Exception:
             pass
         if self.io:
